@@ -129,3 +129,23 @@ func verifRoundTripChannelUpdateRejMsg(w0 io.Writer, r0 io.Reader, x ChannelUpda
 	decErr = y.Decode(r0)
 	return y, nil, decErr
 }
+
+func verifRoundTripChannelUpdateMsg(w0 io.Writer, r0 io.Reader, x ChannelUpdateMsg) (y ChannelUpdateMsg, encErr, decErr error) {
+	encErr = x.Encode(w0)
+	if encErr != nil {
+		return y, encErr, nil
+	}
+	verifLink(w0, r0)
+	decErr = y.Decode(r0)
+	return y, nil, decErr
+}
+
+func verifRoundTripChannelUpdateAccMsg(w0 io.Writer, r0 io.Reader, x ChannelUpdateAccMsg) (y ChannelUpdateAccMsg, encErr, decErr error) {
+	encErr = x.Encode(w0)
+	if encErr != nil {
+		return y, encErr, nil
+	}
+	verifLink(w0, r0)
+	decErr = y.Decode(r0)
+	return y, nil, decErr
+}
